@@ -25,11 +25,14 @@ def opServer (j : Json) : P Json := do
   -- either one connection receiving `chunks`, or `schedule` = [[connection index, chunk], ...] over several connections
   -- a chunk `null` = the receive call of that connection ended with socket.timeout; `{"del": u}` = the application
   -- removes unit u from the server context at this point (`del context[u]`)
-  let chunkOf : Json → P (Option Bytes ⊕ Int) := fun c => match c with
+  -- `{"add": u, "layout": slave}` = the application registers (or replaces) unit u at this point (`context[u] = slave`)
+  let chunkOf : Json → P (Option Bytes ⊕ (Int × Option SlaveCtx)) := fun c => match c with
     | .null => pure (.inl none)
-    | .obj _ => do pure (.inr (← fInt c "del"))
+    | .obj _ => match optFld c "add" with
+      | some _ => do pure (.inr ((← fInt c "add"), some (← parseSlaveB (← fld c "layout"))))
+      | none => do pure (.inr ((← fInt c "del"), none))
     | c => do pure (.inl (some (← nats c)))
-  let sched : List (Nat × (Option Bytes ⊕ Int)) ← match j.getObjVal? "schedule" with
+  let sched : List (Nat × (Option Bytes ⊕ (Int × Option SlaveCtx))) ← match j.getObjVal? "schedule" with
     | .ok (.arr a) => a.toList.mapM (fun st => do
         let l ← arr st
         pure ((← nat (← nth l 0)), (← chunkOf (← nth l 1))))
@@ -52,8 +55,12 @@ def opServer (j : Json) : P Json := do
     let (conn', ctx', outs, esc) := match oc with
       | .inl (some c) => connStep cfg (conns i) ctx c
       | .inl none => (connTimeout cfg (conns i) ctx, ctx, [], none)
-      | .inr u =>
+      | .inr (u, none) =>
         match ctx.units.delItem u with
+        | .ok us => (conns i, { ctx with units := us }, [], none)
+        | .error e => (conns i, ctx, [], some e)
+      | .inr (u, some sl) =>
+        match ctx.units.setItem u sl with
         | .ok us => (conns i, { ctx with units := us }, [], none)
         | .error e => (conns i, ctx, [], some e)
     let old := conns
